@@ -122,10 +122,19 @@ func (e *Engine) intrinsic(st *State, f *Frame, x ssa.Value, callee *ssa.Functio
 				return dead()
 			}
 			t := e.declScalar(e.inputKey(st, n), 64)
+			// the range constraint is built (and hash-consed) before the range is declared, so that it is not
+			// itself folded away by the interval analysis
+			cond, ok := e.rangeConds[t]
+			if !ok {
+				b.ClearVarRange(t)
+				cond = b.And(b.Sle(b.BV(64, uint64(lo)), t), b.Sle(t, b.BV(64, uint64(hi))))
+				e.rangeConds[t] = cond
+			}
 			if lo >= 0 {
 				e.varRange[t] = [2]uint64{uint64(lo), uint64(hi)}
+				b.SetVarRange(t, uint64(lo), uint64(hi))
 			}
-			e.addPC(st, b.And(b.Sle(b.BV(64, uint64(lo)), t), b.Sle(t, b.BV(64, uint64(hi)))))
+			e.addPC(st, cond)
 			return ret(Scalar{t})
 		case "verifBytes", "verifWords", "verifU32s":
 			n, ok := e.strArg(st, args[0])
@@ -151,8 +160,15 @@ func (e *Engine) intrinsic(st *State, f *Frame, x ssa.Value, callee *ssa.Functio
 			key := e.inputKey(st, n)
 			ts := e.declArray(key, 8, int(cnt))
 			lt := e.declScalar(key+".len", 64)
+			cond, okc := e.rangeConds[lt]
+			if !okc {
+				b.ClearVarRange(lt)
+				cond = b.Ule(lt, b.BV(64, uint64(cnt)))
+				e.rangeConds[lt] = cond
+			}
 			e.varRange[lt] = [2]uint64{0, uint64(cnt)}
-			e.addPC(st, b.Ule(lt, b.BV(64, uint64(cnt))))
+			b.SetVarRange(lt, 0, uint64(cnt))
+			e.addPC(st, cond)
 			elems := make([]Val, cnt)
 			for i := range elems {
 				elems[i] = Scalar{ts[i]}
